@@ -378,3 +378,6 @@ def run(repo, chk, tier):
     from .c05_cachedkey import check_cached_key_pairing
 
     check_cached_key_pairing(repo, chk)
+    from .c03_order import check_selection_order
+
+    check_selection_order(repo, chk)
